@@ -23,6 +23,7 @@ import (
 	"errors"
 	"io/ioutil"
 	"net/http"
+	"strconv"
 	"strings"
 	"time"
 
@@ -81,7 +82,11 @@ func (c *InternalCron) ScheduleEvent(ctx *core.Context, se *ScheduledEvent) erro
 func jobKey(ctx *core.Context, id string) string {
 	if ctx != nil {
 		if loc := ctx.Location(); loc != nil {
-			return loc.Name + "\x00" + id
+			// The length in front makes the key unique: with a
+			// separator alone, the rule "b\x00c" of the location
+			// "a" and the rule "c" of the location "a\x00b" are
+			// one job (nothing keeps a NUL out of names or ids).
+			return strconv.Itoa(len(loc.Name)) + ":" + loc.Name + id
 		}
 	}
 	return id
